@@ -68,6 +68,10 @@ def opaque(name, **tags):
     return Val(data={name}, term=("in", name), tags=t)
 
 
+def rel_axis(K):
+    return "Fr" if K == "mat" else "F"
+
+
 # ---------------------------------------------------------------- the linear-fit signature (C04 … C11, C15)
 def lsq_inputs(K="vec", baseline="vec", W="mat", lb="nonneg", ub="finite", bs="sym", rel=True, B_frame="TOTAL",
                nonneg_B=False):
@@ -75,15 +79,16 @@ def lsq_inputs(K="vec", baseline="vec", W="mat", lb="nonneg", ub="finite", bs="s
     A:(F,SRC)[c/s] GAIN;  B:(N,F)[rho] TOTAL;  lb,ub:(SRC)[s];  W:(N,F)|(F)[w];  K:(F)|(F,F)[rho/c];
     baseline:(F)[c] BASE.  With K=None the relative unit rho is the capture unit c."""
     urel = U_REL if K is not None else U_CAPTURE
+    FR = rel_axis(K)               # a matrix K maps the capture axis F onto the adapted axis Fr
     kw = {}
     kw["A"] = arr("A", S("F", "SRC"), U_GAIN, "GAIN")
     if baseline is None and B_frame == "TOTAL":
         B_frame = "LIGHT"          # without a baseline the total capture *is* the light-induced capture
-    kw["B"] = arr("B", S("N", "F"), urel, B_frame, sign=("NONNEG" if nonneg_B else None))
+    kw["B"] = arr("B", S("N", FR), urel, B_frame, sign=("NONNEG" if nonneg_B else None))
     if K == "vec":
         kw["K"] = arr("K", S("F"), U_K)
     elif K == "mat":
-        kw["K"] = arr("K", S("F", "F"), U_K)
+        kw["K"] = arr("K", S("Fr", "F"), U_K)
     else:
         kw["K"] = none()
     if baseline == "vec":
@@ -91,9 +96,9 @@ def lsq_inputs(K="vec", baseline="vec", W="mat", lb="nonneg", ub="finite", bs="s
     else:
         kw["baseline"] = none()
     if W == "mat":
-        kw["W"] = arr("W", S("N", "F"), U_W, sign="NONNEG")
+        kw["W"] = arr("W", S("N", FR), U_W, sign="NONNEG")
     elif W == "vec":
-        kw["W"] = arr("W", S("F"), U_W, sign="NONNEG")
+        kw["W"] = arr("W", S(FR), U_W, sign="NONNEG")
     elif W == "inverse":
         kw["W"] = strv("W", "inverse")
     else:
@@ -131,15 +136,16 @@ def estimator_fields(K="vec", baseline="vec", domain="array", ub="finite", lb="n
     else:
         f["domain"] = num("self.domain", U_LAMBDA, sign="POS")
     f["filters_uncertainty"] = none() if uncertainty is None else arr("self.filters_uncertainty", S("F", "D"), U_FILTER)
-    f["K"] = arr("self.K", S("F") if K == "vec" else (S("F", "F") if K == "mat" else S("1")), U_K)
+    FR = rel_axis(K)
+    f["K"] = arr("self.K", S("F") if K == "vec" else (S("Fr", "F") if K == "mat" else S("1")), U_K)
     f["baseline"] = arr("self.baseline", S("F") if baseline == "vec" else S("1"), U_CAPTURE, "BASE", sign="NONNEG")
     f["A"] = arr("self.A", S("F", "SRC"), U_GAIN, "GAIN", sign="NONNEG")
     f["lb"] = arr("self.lb", S("SRC"), U_INT, sign=("NONNEG" if lb == "nonneg" else None), finite=True)
     f["ub"] = arr("self.ub", S("SRC"), U_INT, finite=(ub == "finite"))
     f["sources"] = arr("self.sources", S("SRC", "D"), U_SIGNAL)
     f["sources_domain"] = f["domain"].copy()
-    f["w"] = arr("self.w", S("F"), U_W, sign="NONNEG")
-    f["W"] = arr("self.W", S("F") if W == "vec" else S("N", "F"), U_W, sign="NONNEG")
+    f["w"] = arr("self.w", S(FR), U_W, sign="NONNEG")
+    f["W"] = arr("self.W", S(FR) if W == "vec" else S("N", FR), U_W, sign="NONNEG")
     f["labels"] = opaque("self.labels")
     f["sources_labels"] = opaque("self.sources_labels")
     if Epsilon == "het":
@@ -147,6 +153,6 @@ def estimator_fields(K="vec", baseline="vec", domain="array", ub="finite", lb="n
     else:
         f["Epsilon"] = arr("self.Epsilon", S("F", "SRC"), {"c": 2, "s": -2}, sign="NONNEG")
     if targets:
-        f["B"] = arr("self.B", S("N", "F"), U_REL, "TOTAL")
-        f["target_B"] = arr("self.target_B", S("N", "F"), U_REL, "TOTAL")
+        f["B"] = arr("self.B", S("N", FR), U_REL, "TOTAL")
+        f["target_B"] = arr("self.target_B", S("N", FR), U_REL, "TOTAL")
     return f
